@@ -74,7 +74,7 @@ def run(ck):
             for v in vals:
                 for ch in (False, True):
                     triples.append((arch, stmt, v, ch) + variants(stmt, v, ch))
-    for stmt in ["@db vv1", "@db 1, vv1, 2", "@dw vv1", "@dw vv1, vv1", "@ds 3, vv1", "@assert vv1", "@assert vv1 - 7, \"m\"",
+    for stmt in ["@db vv1", "@db 1, vv1, 2", "@dw vv1", "@dw vv1, vv1", "@ds 3, vv1", "@ds 0, vv1", "@ds 0, vv1 + 250\n@db 1", "@ds 1 - 1, vv1", "@assert vv1", "@assert vv1 - 7, \"m\"",
                  "@db vv1 + 1", "@dw vv1 * 2", "@db < vv1", "@db > vv1", "@dw vv1 + vv1", "@dw ( vv1 << 8 ) | vv1",
                  "@db vv1 ^ vv1", "@ds 2, vv1 - vv1 + 3", "@assert vv1 == vv1",
                  # the same inside an ADDR segment (nothing is emitted there, but an assertion still counts)
@@ -108,6 +108,17 @@ def run(ck):
             for v in (5, 0x42):
                 for ch in (False, True):
                     triples.append((arch, stmt, v, ch) + variants(stmt, v, ch, org=org))
+    # mixed placement: the first links of a chain are written before the use, the last one (holding the value) after it
+    for arch, stmt in [("z80", "@db vv1"), ("z80", "@dw vv1"), ("z80", " ld a, vv1"), ("6502", " lda #vv1"), ("sm83", " ld hl, vv1"), ("z80", "@assert vv1 == $42"),
+                       ("z80", "@ds 2, vv1"), ("z80", "@db vv1, vv2")]:
+        for n in (3, 4, 6):
+            chain = "".join("@defl vv%d, vv%d + 1\n" % (k, k + 1) for k in range(1, n))
+            last = "@defn vv%d, %d\n" % (n, 0x42 - (n - 1))
+            head = "@org %d\n" % ORG
+            for cut in range(1, n):          # links 1..cut before the use, the rest after it
+                pre = "".join("@defl vv%d, vv%d + 1\n" % (k, k + 1) for k in range(1, cut + 1))
+                post = "".join("@defl vv%d, vv%d + 1\n" % (k, k + 1) for k in range(cut + 1, n)) + last
+                triples.append((arch, stmt, 0x42, n, head + chain + last + stmt + "\n", head + pre + stmt + "\n" + post, head + stmt + "\n"))
     # long chains (the property speaks of chains of any length)
     for arch, stmt in [("z80", "@db vv1"), ("z80", "@dw vv1"), ("z80", " ld a, vv1"), ("6502", " lda #vv1"), ("sm83", " ld hl, vv1"), ("z80", "@assert vv1 == $42")]:
         for n in (33, 64, 65, 66, 100, 150):
